@@ -613,6 +613,23 @@ def oracle(req, out):
         return None
     if op == "strlex":
         t = unhex(ws[1]).decode()
+        if "\r" in t:
+            # CR / CRLF spelling of a text of the LF alphabet: the rule is the same (an unterminated literal is unterminated
+            # whatever the line ending); judged on rejection and kind, offsets only within the whole text
+            s = spec_strlex(t.replace("\r\n", "\n").replace("\r", "\n"))
+            if s is None:
+                return None
+            r = _parse_out(out)
+            if r is None:
+                return f"unterminated string in {t!r} was accepted"
+            if r == "?":
+                return f"unreadable answer for {t!r}"
+            # start of the offending literal in the CR / CRLF text: every line break before it may be one byte longer
+            norm = t.replace("\r\n", "\n").replace("\r", "\n")
+            lo = s[1] + (norm[:s[1]].count("\n") if "\r\n" in t else 0)
+            if r[1] >= lo and r[0] not in (s[0] | {"Eof", "LineContinuation"}):
+                return f"unterminated string in {t!r}: rejected as {r}, expected one of {sorted(s[0])}"
+            return None
         s = spec_strlex(t)
         if s is None:
             return None
@@ -1211,6 +1228,11 @@ def streams(ctx):
     out.append(Stream(f"strlex-exhaustive-len<={Ls}", [f"strlex {hexs(w)}" for w in words(STR_ALPHA, Ls, 1)],
                       kind="exhaustive", exhaustive=True, nontrivial=_violating,
                       note="all texts over ' \" a backslash newline"))
+    Lc = 5 if q else 6
+    crw = [w for w in words(STR_ALPHA, Lc, 1) if "\n" in w]
+    out.append(Stream(f"strlex-cr-crlf-len<={Lc}", [f"strlex {hexs(w.replace(chr(10), e))}" for w in crw for e in ("\r", "\r\n")],
+                      kind="exhaustive", exhaustive=True, compare=False,
+                      note="the same texts with every line break written as a lone CR and as CR LF (judged on rejection and kind)"))
     Lf = 5 if q else 7
     out.append(Stream(f"fstr-exhaustive-len<={Lf}", [f"fstr {hexs(w)}" for w in words(FSTR_ALPHA, Lf, 0)],
                       kind="exhaustive", exhaustive=True, nontrivial=_violating,
